@@ -258,22 +258,28 @@ def touchesBorder (shape : List Nat) (labels : List Int) (rsize : List Nat) (v :
 def removeBorderingSpec (shape : List Nat) (labels : List Int) (rsize : List Nat) : List Int :=
   labels.map fun v => if v ≠ 0 && touchesBorder shape labels rsize v then 0 else v
 
-/-- `filter_labeled` (min/max = 0 encode "not given", as the wrapper's `if min_size:` does) -/
+/-- the size test of `filter_labeled` (min/max = 0 encode "not given", as the wrapper's `if min_size:` does) -/
+def badSize (minSize maxSize c : Nat) : Bool :=
+  (minSize ≠ 0 && c < minSize) || (maxSize ≠ 0 && c > maxSize)
+
+/-- `filter_labeled` -/
 def filterLabeled (shape : List Nat) (labels : List Int) (rb : Bool) (minSize maxSize : Nat) : List Int × Int :=
   let st : List Int × Int :=
     if rb then relabel (removeBordering shape labels (shape.map fun _ => 1)) else (labels, maxOf labels)
   let nr := st.2.toNat
   let sizes := histogram (nr + 1) st.1
-  let toRemove := (List.range (nr + 1)).filter fun l =>
-    l ≠ 0 && ((minSize ≠ 0 && sizes.getD l 0 < minSize) || (maxSize ≠ 0 && sizes.getD l 0 > maxSize))
+  let toRemove := (List.range (nr + 1)).filter fun l => l ≠ 0 && badSize minSize maxSize (sizes.getD l 0)
   relabel (removeRegions st.1 (toRemove.map fun (l : Nat) => (l : Int)))
 
-def filterLabeledSpec (shape : List Nat) (labels : List Int) (rb : Bool) (minSize maxSize : Nat) : List Int × Int :=
-  let size := fun (v : Int) => (labels.filter (· == v)).length
-  let kept := labels.map fun v =>
+/-- specification: the label map with exactly the selected regions zeroed (regions touching the border when
+    `rb`, regions smaller than `minSize` / larger than `maxSize` when given) -/
+def filterKept (shape : List Nat) (labels : List Int) (rb : Bool) (minSize maxSize : Nat) : List Int :=
+  labels.map fun v =>
     if v ≠ 0 && ((rb && touchesBorder shape labels (shape.map fun _ => 1) v) ||
-        (minSize ≠ 0 && size v < minSize) || (maxSize ≠ 0 && size v > maxSize)) then 0 else v
-  relabelSpec kept
+        badSize minSize maxSize (labels.filter (· == v)).length) then 0 else v
+
+def filterLabeledSpec (shape : List Nat) (labels : List Int) (rb : Bool) (minSize maxSize : Nat) : List Int × Int :=
+  relabelSpec (filterKept shape labels rb minSize maxSize)
 
 /-! ### borders, border, bwperim -/
 
